@@ -6,6 +6,7 @@ from dataclasses import dataclass, field
 from typing import Optional
 
 from .guards import facts_of
+from .inline import inline_view, not_named
 from .model import AnalysisError, FuncInfo, Model
 from .paths import Event, Path, calls_in, event_exprs, function_paths
 
@@ -14,7 +15,48 @@ WRITES = ("write_byte", "write_halfword", "write_word")
 STAT_FIELDS = ("hits", "accesses", "last_was_hit")
 
 
+# Today's methods of the cache memory systems: the rules know these by name.  Any *other* method of
+# the same object called from a counted method is a helper somebody extracted; it is inlined before
+# the paths are enumerated (sa.inline), so moving statements into a helper changes nothing.
+ANCHORS = frozenset({
+    "__init__", "_decode_address", "_read_block", "_read_block_from_memory", "_write_block_to_memory", "cache_repr",
+    "get_address_range", "get_cache_stats", "read_byte", "read_halfword", "read_word", "reset", "wordwise_repr",
+    "write_byte", "write_halfword", "write_word", "get_representation", "has_instructions", "instruction_at_address",
+    "read_instruction", "write_instruction", "write_instructions",
+})
+
+
 def counted_methods(model: Model) -> list[tuple[FuncInfo, str]]:
+    """(method, flag-kind) for the ten counted access methods, extracted helpers inlined."""
+    cache = model.__dict__.get("_counted_methods")
+    if cache is None:
+        want = not_named(ANCHORS, "cache-anchors")
+        cache = model.__dict__["_counted_methods"] = [(inline_view(model, f, want), k) for f, k in _counted_methods(model)]
+    return cache
+
+
+def sanctioned_helpers(model: Model) -> set[str]:
+    """qnames of helpers that were inlined into counted methods and are called from nowhere else:
+    their statistic / cycle writes are judged on the inlined paths."""
+    counted = counted_methods(model)
+    cand: set[str] = set()
+    for f, _ in counted:
+        cand |= set(f.__dict__.get("inlined_helpers", ()))
+    if not cand:
+        return set()
+    ok_callers = {f.qname for f, _ in counted} | cand
+    names = {q.rsplit(".", 1)[1]: q for q in cand}
+    bad: set[str] = set()
+    for mod in model.modules.values():
+        fns = list(mod.functions.values()) + [fn for c in mod.classes.values() for fn in c.methods.values()]
+        for fn in fns:
+            for n in ast.walk(fn.node):
+                if isinstance(n, ast.Call) and isinstance(n.func, ast.Attribute) and n.func.attr in names and fn.qname not in ok_callers:
+                    bad.add(names[n.func.attr])
+    return cand - bad
+
+
+def _counted_methods(model: Model) -> list[tuple[FuncInfo, str]]:
     """(method, flag-kind) for the ten counted access methods.
     flag-kind: 'read' (update_statistics), 'write' (directly_write_to_lower_memory), 'always'."""
     out: list[tuple[FuncInfo, str]] = []
